@@ -183,6 +183,21 @@ def worker(case, led):
                                   key + ("rdm2dof", i, j, cplx), {"complex_state": bool(cplx), "relation": rel, "same_node": bt.dof2idx[d1] == bt.dof2idx[d2]}, dict(rep, dofs=[repr(d1), repr(d2)]))
                 except Exception as e:
                     led.check(False, "post:TTNS.calc_2dof_rdm:total", "TTNS.calc_2dof_rdm", f"raised {type(e).__name__}: {e}", key + ("rdm2dof", cplx), {}, rep)
+                # one call listing pairs in BOTH orders and a pair twice: every entry is the partial trace in the order of ITS key, whatever else the list holds
+                both = [(dofs[i], dofs[j]) for i in range(len(dofs)) for j in range(len(dofs)) if i != j][:8]
+                both = both + both[:1]
+                try:
+                    r2b = st.calc_2dof_rdm(both)
+                    for (d1, d2) in dict.fromkeys(both):
+                        i, j = dofs.index(d1), dofs.index(d2)
+                        ref = rdm_ref(v, dims, [i, j])
+                        got = np.asarray(r2b[(d1, d2)])
+                        ok = got.size == ref.size and close(got.reshape(ref.shape), ref, 1e-9)
+                        led.check(ok, "post:TTNS.calc_2dof_rdm:partial_trace_in_the_order_of_the_key", "TTNS.calc_2dof_rdm",
+                                  f"dofs {(d1, d2)} in a list holding both orders: differs from the partial trace over ({d1}, {d2}) (shape {got.shape})",
+                                  key + ("rdm2dof-both", i, j, cplx), {"complex_state": bool(cplx), "reversed_pair": bool(i > j)}, dict(rep, dofs=[repr(d1), repr(d2)], pairs=repr(both)))
+                except Exception as e:
+                    led.check(False, "post:TTNS.calc_2dof_rdm:total", "TTNS.calc_2dof_rdm", f"raised {type(e).__name__}: {e} for a list with both orders", key + ("rdm2dof-both", cplx), {}, rep)
             try:
                 s1 = st.calc_1dof_entropy()
                 ok = all(abs(s1[bb.dofs[0]] - entropy(np.linalg.eigvalsh(rdm_ref(v, dims, [bi])))) <= 1e-8 for bi, bb in enumerate(order))
